@@ -507,6 +507,17 @@ def main(argv=None):
         except Exception as e:  # noqa
             ck.hist("load", "rejected")
             continue
+        # query history: the same method object is first asked about values of an inadmissible type which compare equal
+        # to the admissible ones (5.0 == 5, True == 1); what it says about the proper values afterwards must not depend on
+        # that (an integer-typed method declares 5.0 invalid -- and 5 valid all the same)
+        if i % 2 == 0:
+            for v in vals:
+                if isinstance(v, int) and not isinstance(v, bool):
+                    for w in ((float(v), True) if v == 1 else (float(v),)):
+                        call(cm.is_valid_internal_value, w)
+                        call(cm.is_valid_physical_value, w)
+                        call(cm.convert_internal_to_physical, w)
+                        call(cm.convert_physical_to_internal, w)
         res = []
         for v in vals:
             ck.count((repr(c), v))
